@@ -113,7 +113,7 @@ func (p *Prop) Run(t *simhook.Tape, opt simkit.RunOpt) *simkit.RunResult {
 		runBudget = 60000000
 	}
 	c.hash.Word(uint64(sub))
-	res, abort := simkit.RunSolo(t, runBudget, runBudget/2, true, body)
+	res, abort := simkit.RunSolo(t, runBudget, runBudget*2, true, body) // (per-operation budget: only has to end a hang)
 	rr := &simkit.RunResult{Hash: uint64(c.hash), Nontrivial: c.nontriv, Steps: res.Steps, History: c.hist, FaultTrace: c.ftrace, Policy: "seq"}
 	if abort != nil && !simkit.AbortIsVerdict(abort) {
 		rr.BudgetHit = true
